@@ -3,6 +3,7 @@ import OntVerif.Model.P2PMsg
   `D <cmdhex> <payloadhex>`            decode one payload of the given (zero-trimmed) command
   `F <magic> <streamhex> <ckhex>`      `ReadMessage` on a raw stream; `ck` = checksum of the payload bytes (supplied by Go)
   `E addr <entries>` / `E inv <ty> <hashes>`  encode a message built from fields
+  `O <k>`                              explored only (a signed offline-witness message with k votes): the model answers `opaque`
 -/
 namespace OntVerif.Driver.C24
 open OntVerif.Util OntVerif.Model.Codec OntVerif.Model.P2PMsg
@@ -87,6 +88,7 @@ def handle (line : String) : String :=
     match m.toNat?, unhex s, unhex k with
     | some m, some s, some k => both (fun v => runF v m s k)
     | _, _, _ => "bad-op"
+  | ["O", _] => "opaque"     -- offline-witness round trip: explored by the harness only (signatures)
   | ["E", "addr", es] =>
     let parts := if es == "-" then [] else es.splitOn ";"
     match parts.mapM parsePeerAddr with
